@@ -34,6 +34,8 @@ pub enum Req {
     /// Remove up to `count` of the current data in one step, starting at the selected one and
     /// walking the current list backwards (so not in increasing id order).
     RemoveBurst { sel: u16, count: u8 },
+    /// Remove every second datum of the current list (leaves many holes at once).
+    RemoveEveryOther { phase: bool },
     /// Close the variant.
     Close { strat: Strat },
 }
@@ -292,6 +294,29 @@ pub fn run_native(h: &History) -> (Trace, Option<RecordDefinition<NativeDatumDet
                     }
                 }
             }
+            Req::RemoveEveryOther { phase } => {
+                let current = guarded!(b.get_current_data().collect::<Vec<_>>());
+                for (i, id) in current.iter().enumerate() {
+                    if (i % 2 == 0) != *phase {
+                        continue;
+                    }
+                    let k = datum_index(*id);
+                    match guarded!(b.remove_datum(*id)) {
+                        Ok(()) => {
+                            if let Some(pos) = pending_added.iter().position(|&x| x == k) {
+                                pending_added.remove(pos);
+                                trace.removed_while_pending += 1;
+                            } else {
+                                pending_removed.push(k);
+                            }
+                        }
+                        Err(e) => {
+                            trace.panicked = Some(format!("valid remove rejected: {}", e));
+                            return (trace, None);
+                        }
+                    }
+                }
+            }
             Req::Close { strat } => {
                 let n_ids = trace.n_ids;
                 if let Err(e) = do_close(
@@ -364,7 +389,7 @@ pub fn strat_strategy() -> impl Strategy<Value = Strat> {
 /// (size, align): power-of-two alignment 1..16, size a multiple of the alignment (what Rust
 /// types look like), zero included.
 pub fn shape_strategy() -> impl Strategy<Value = (usize, usize)> {
-    (prop_oneof![12 => 0usize..5, 1 => 5usize..8], prop_oneof![
+    (prop_oneof![24 => 0usize..5, 2 => 5usize..8, 1 => 8usize..13], prop_oneof![
         30 => 0usize..=6,
         5 => 7usize..=12,
         3 => 13usize..=40,
@@ -412,8 +437,26 @@ pub fn history_strategy(max_len: usize) -> BoxedStrategy<History> {
         1 => (any::<u16>(), 2u8..60).prop_map(|(sel, count)| Req::RemoveBurst { sel, count }),
         1 => strat_strategy().prop_map(|strat| Req::Close { strat }),
     ];
+    // checkerboard: a wide variant of small data, every second one removed, then additions
+    let small_add = (0usize..4, 1usize..4, any::<bool>()).prop_map(|(a, k, uninit)| Req::Add { size: k << a, align: 1 << a, uninit, name: None, alt_spelling: false });
+    let checkerboard = (
+        prop::collection::vec(small_add, 70..200),
+        strat_strategy(),
+        any::<bool>(),
+        strat_strategy(),
+        prop::collection::vec(req_strategy(strat_strategy().boxed()), 1..40),
+        strat_strategy(),
+    )
+        .prop_map(|(adds, s1, phase, s2, tail, final_strat)| {
+            let mut reqs = adds;
+            reqs.push(Req::Close { strat: s1 });
+            reqs.push(Req::RemoveEveryOther { phase });
+            reqs.push(Req::Close { strat: s2 });
+            reqs.extend(tail);
+            History { reqs, final_strat }
+        });
     let very_long = (prop::collection::vec(add_heavy, 270..420), strat_strategy()).prop_map(|(reqs, final_strat)| History { reqs, final_strat });
-    prop_oneof![60 => mixed, 28 => mono, 8 => long, 1 => very_long].boxed()
+    prop_oneof![120 => mixed, 56 => mono, 16 => long, 2 => very_long, 3 => checkerboard].boxed()
 }
 
 // ---------------------------------------------------------------------------------------------
